@@ -954,6 +954,71 @@ def from_empty(base: str, workdir: str, cfg: str, hdr: int, seed: int, feats: se
     return res, g, chosen.name
 
 
+# attribute of the first object of a view that is pushed out of its on-disk field (value that must be rejected by save())
+BREAKABLE = {'props': ('solidity', 256), 'cubemaps': ('size', 1 << 31), 'overlays': ('id', 1 << 31), 'visleafs': ('cluster_id', 40000),
+             'planes': ('dist', 1e40), 'nodes': ('area_ind', 40000), 'detail_props': ('leaf', 70000)}
+
+
+def retry_after_reject(base: str, workdir: str, g: Gen, view: str) -> dict[str, str] | None:
+    """Error path: a world is assigned, one value of `view` does not fit its field, save() raises - the caller repairs the value IN
+    PLACE and saves the same BSP object again.  The second save must write the world (nothing may have been dropped when the first
+    one gave up half-way); re-read by a fresh object and compared view by view.  None: the world has no object in `view`, or the
+    value was not rejected (that is the business of the rejection probes)."""
+    import srctools.bsp as B
+    w = g.build()
+    if not w[view]:
+        return None
+    attr, bad = BREAKABLE[view]
+    obj = w[view][0]
+    good = getattr(obj, attr)
+    path = os.path.join(workdir, 'retry.bsp')
+    shutil.copy(base, path)
+    ver = B.StaticPropVersion[g.prop_ver]
+    expect = canon_views(w, lambda n: w[n], g.vit, ver)
+    res: dict[str, str] = {}
+    exp_ver = {'l4d2': B.GameVersion.L4D2, 'vitamin': B.GameVersion.VITAMINSOURCE}.get(g.cfg)
+    with contextlib.redirect_stdout(io.StringIO()), time_limit(IMPL_TIME_LIMIT):
+        b = B.BSP(path)
+        apply_config(b, g.cfg)
+        b.static_prop_version = ver
+        b.out_comma_sep = w['out_comma_sep']
+        for v in ['ents'] + [v for v in VIEWS if v != 'ents']:
+            if not (v == 'bmodels' and w[v] is None):
+                setattr(b, v, w[v])
+        try:
+            setattr(obj, attr, bad)
+            b.save(path)
+        except Exception:      # noqa: BLE001 - rejected (on assignment or on save), as it must be
+            pass
+        else:
+            return None
+        finally:
+            setattr(obj, attr, good)
+    try:
+        with contextlib.redirect_stdout(io.StringIO()), time_limit(IMPL_TIME_LIMIT):
+            b.save(path)
+    except (Exception, ImplTimeout) as e:      # noqa: BLE001
+        return {'!save': f'second save, after the rejected value was repaired in place: {type(e).__name__}: {e}'[:300]}
+    try:
+        with time_limit(IMPL_TIME_LIMIT):
+            b2 = B.BSP(path, exp_ver)
+            if ambiguous_prop_version(g.cfg, g.prop_ver):
+                b2.static_prop_version = ver
+            got = canon_views(b2, lambda n: None if (n == 'bmodels' and w['bmodels'] is None) else getattr(b2, n), g.vit, ver)
+    except (Exception, ImplTimeout, RecursionError) as e:      # noqa: BLE001
+        return {'!read': f'file of the second save: {type(e).__name__}: {e}'[:300]}
+    for v in VIEWS:
+        if v == 'bmodels' and w[v] is None:
+            continue
+        a, c = expect[v], got[v]
+        if v in GROWING and isinstance(a, list) and isinstance(c, list) and len(c) >= len(a):
+            c = c[:len(a)]
+        d = first_diff(a, c, v)
+        if d:
+            res[v] = d
+    return res
+
+
 def roundtrip(base: str, workdir: str, g: Gen, only: list[str] | None = None) -> dict[str, str]:
     """Assign the generated world to a copy of the base file, save, re-read, compare. Returns view -> difference.
     The special key '!save' / '!read' reports an exception."""
